@@ -729,8 +729,10 @@ def seq_case(rnd):
     pkb = pk and rnd.random() < 0.45
     if pkb:
         nn = True
+    # (b is sometimes a BIGINT column: its blocks end at other rows than those of the INT column a)
+    bty = "bigint" if pk and not pkb and rnd.random() < 0.5 else "int"
     ddl = [f"create table t1(a int{' primary key' if pk and not pkb else ''}, "
-           f"b int{' primary key' if pkb else (' not null' if nn else '')}, c varchar)",
+           f"b {bty}{' primary key' if pkb else (' not null' if nn else '')}, c varchar)",
            "create table t2(a int, b int, c varchar)", "create table t3(a int, b int)"]
     steps = [{"sql": s, "kind": "ddl"} for s in ddl]
     # (no subqueries here: with the real, small row counts of the disk engine their plans panic -- Q8)
@@ -738,11 +740,34 @@ def seq_case(rnd):
     # primary keys are not enforced unique: half of the key tables get runs of equal keys that span several
     # blocks of one row-set (the key-range scan has to find both ends of such a run)
     dup = pk and not pkb and rnd.random() < 0.5
+    # larger row-sets with contiguous runs of deleted rows: whole scan batches are hidden by a delete vector and the
+    # column readers have to skip them (columns of different widths end their blocks at different rows)
+    contig = pk and not pkb and not dup and rnd.random() < 0.4
+    nextkey = 100
     # (tables of that size are queried without joins: the reference evaluation by TLC is a nested loop)
-    g = G.Gen(rnd, joins=not dup, feat=dict(ENVELOPE, subq=(), derived=0.0 if dup else 0.2))
+    big = dup or contig
+    g = G.Gen(rnd, joins=not big, feat=dict(ENVELOPE, subq=(), derived=0.0 if big else 0.2))
     for _ in range(rnd.choice([5, 7, 9])):
         k = rnd.random()
-        if dup and k < 0.3:
+        if contig and k < 0.3:
+            n = rnd.choice([30, 45, 70])
+            rows = [[nextkey + i, rnd.choice([0, 1, 2, 3] if nn else G.INTS), rnd.choice(G.STRS)] for i in range(n)]
+            nextkey += n
+            steps.append({"sql": "insert into t1 values " + ", ".join(
+                "(" + ", ".join(G.lit(v) for v in r) + ")" for r in rows), "kind": "dml"})
+        elif contig and k < 0.5 and nextkey > 100:
+            lo = rnd.randrange(100, nextkey)
+            hi = lo + rnd.choice([6, 12, 13, 20, 31])
+            steps.append({"sql": f"delete from t1 where a >= {lo} and a < {hi}", "kind": "dml"})
+        elif contig and k < 0.7:
+            A = lambda c, ty=G.INT: ("col", "x1", c, ty)
+            sel = rnd.choice([[(A("a"), "c1"), (A("b"), "c2")], [(A("a"), "c1"), (A("c", G.STR), "c2")], [(A("c", G.STR), "c1")],
+                              [(A("a"), "c1"), (A("b"), "c2"), (A("c", G.STR), "c3")]])
+            q = dict(sel=sel, frm=("t", "t1", "x1"), where=None, grp=[], hav=None, agg=False, dist=False, ord=[], lim=-1, off=0)
+            if rnd.random() < 0.3:
+                q = dict(q, sel=[(("agg", "max", A("a"), G.INT), "c1"), (("agg", "count", A("b"), G.INT), "c2")], agg=True)
+            steps.append({"sql": G.sql_query(q), "kind": "query", "q": q})
+        elif dup and k < 0.3:
             rows = []
             for _ in range(rnd.choice([1, 2, 3])):
                 key = rnd.randrange(0, 12)
@@ -806,6 +831,14 @@ def seq_case(rnd):
                      ord=[(0, "asc")], lim=-1, off=0)
             if rnd.random() < 0.3:
                 q = dict(q, sel=[(A("b"), "c1"), (("agg", "count*"), "c2")], grp=[A("b")], agg=True, ord=[])
+            steps.append({"sql": G.sql_query(q), "kind": "query", "q": q})
+        elif big:
+            # (large tables: plain scans and filters only, the reference evaluation is quadratic in sorts and groups)
+            A = lambda c, ty=G.INT: ("col", "x1", c, ty)
+            sel = rnd.choice([[(A("a"), "c1"), (A("b"), "c2")], [(A("b"), "c1"), (A("c", G.STR), "c2")],
+                              [(A("a"), "c1"), (A("b"), "c2"), (A("c", G.STR), "c3")]])
+            w = rnd.choice([None, ("bin", ">=", A("b"), ("ci", 1), G.BOOL), ("isnull", A("c", G.STR), False, G.BOOL)])
+            q = dict(sel=sel, frm=("t", "t1", "x1"), where=w, grp=[], hav=None, agg=False, dist=False, ord=[], lim=-1, off=0)
             steps.append({"sql": G.sql_query(q), "kind": "query", "q": q})
         else:
             q = g.query()
